@@ -349,8 +349,11 @@ func init() {
 			g.ft.Objects, g.ft.Soft = true, true
 			g.ft.GroupDecs = false
 			g.ft.NT = g.r.Range(2, 4)
-			if g.r.Intn(3) == 0 {
+			switch g.r.Intn(6) {
+			case 0, 1:
 				g.tmpl = (*genCtx).tmplSoftMix
+			case 2:
+				g.tmpl = (*genCtx).tmplSliceMembers
 			}
 		}, Mix{Scope: 2, Provide: 12, Decorate: 1, Invoke: 10, VisStr: 0}),
 		Eval: evalSimple("C11", func(c *Checked) bool {
